@@ -16,11 +16,13 @@
     ispong <datagram hex>                                  -> 1 | 0                               (Spec.Lan.isPongFormat)
     specpong <datagram hex>                                -> some <tag> <oemIana> <oemDefined> <entities> <interactions> | none
                                                                                                   (Spec.Lan.parsePong)
+    pongpack <s|i> <tag> <oemIana> <oemDefined> <entities> <interactions>  -> ok <hex> | <error tag>  (model of AsfPong.pack)
     mkpong <tag> <oemIana> <oemDefined> <entities> <interactions>  -> <hex>                       (Spec.Lan.pongDatagram)
 -/
 import PyIpmi.Base.Proto
 import PyIpmi.Model.Md5
 import PyIpmi.Model.RmcpWire
+import PyIpmi.Model.PongPack
 import PyIpmi.Spec.Lan
 open PyIpmi PyIpmi.Proto PyIpmi.RmcpWire
 
@@ -101,6 +103,13 @@ def handleC05 (line : String) : String :=
   | ["mkpong", tg, oi, od, en, ia] =>
     match tg.toNat?, oi.toNat?, od.toNat?, en.toNat?, ia.toNat? with
     | some tg, some oi, some od, some en, some ia => toHex (Spec.Lan.pongDatagram ⟨tg, oi, od, en, ia⟩)
+    | _, _, _, _, _ => "bad-op"
+  | ["pongpack", v, tg, oi, od, en, ia] =>
+    match tg.toNat?, oi.toNat?, od.toNat?, en.toNat?, ia.toNat? with
+    | some tg, some oi, some od, some en, some ia =>
+      match pongPackV (if v == "s" then .asShipped else .intended) tg oi od en ia with
+      | .ok d => "ok " ++ toHex d
+      | e => e.tag
     | _, _, _, _, _ => "bad-op"
   | ["ispong", dg] =>
     match ofHex dg with
